@@ -78,6 +78,11 @@ add(S, "expired_record_read_slowly_with_a_second_request", slowread,
        {"a": "Start", "p": "r3", "k": "k1", "d": "d1", "m": "GET"}, {"a": "Lookup", "p": "r3"}, {"a": "ReleaseIf", "p": "r3"}, {"a": "ReleaseIf", "p": "r3"},
        {"a": "GetStep", "p": "r2", "res": "ok"}] + R("r2", 3) + R("r3", 3)
     + [{"a": "FetchEndIf", "p": "r2", "out": "cacheable", "ttl": 2}, {"a": "FetchEndIf", "p": "r3", "out": "cacheable", "ttl": 2}] + R("r2", 8) + R("r3", 8))
+# two caches on one store (which does not enforce lifetimes itself): A's entry expires, B refetches and persists a newer version,
+# that one expires too; the next request to A goes to the upstream, whatever the store holds
+shared2 = {"disps": [{"name": "d1", "limit": 0, "hfp": 1, "store": True, "store_name": "both"}, {"name": "d2", "limit": 0, "hfp": 1, "store": True, "store_name": "both"}], "keys": {"k1": 1}}
+add(S, "two_caches_one_store_both_versions_expired", shared2, fetch("r1", "k1", "d1", 1) + tick(2) + fetch("r2", "k1", "d2", 1, res="ok") + tick(2)
+    + [{"a": "Start", "p": "r3", "k": "k1", "d": "d1", "m": "GET"}] + R("r3", 3) + [{"a": "FetchEndIf", "p": "r3", "out": "cacheable", "ttl": 1}] + R("r3", 8))
 add(S, "memory_expiry", one, fetch("r1", "k1", "d1", 1) + tick(2) + ask("r2", "k1", "d1"))
 json.dump(S, open(os.path.join(here, "store_directed.json"), "w"), indent=0)
 
